@@ -415,7 +415,10 @@ fn adc_field_variants(base: &AdcSpec) -> Vec<AdcSpec> {
 
 const ALNUM62: &[u8] = b"0123456789ABCDEFGHIJKLMNOPQRSTUVWXYZabcdefghijklmnopqrstuvwxyz";
 const ALNUM36: &[u8] = b"0123456789ABCDEFGHIJKLMNOPQRSTUVWXYZ";
-const UTF8_ALPHABET: [&str; 20] = ["A", "B", "C", "P", "T", "M", "S", "0", "1", "9", "F", "V", "W", "a", " ", "+", "é", "ß", "€", "😀"];
+/// ASCII letters/digits that the name patterns use, plus characters of every UTF-8 width in
+/// every Unicode class a careless predicate could let through: non-ASCII uppercase (2 and
+/// 3 bytes), lowercase, non-ASCII digits / numerics, symbols, a 4-byte character.
+const UTF8_ALPHABET: [&str; 26] = ["A", "B", "C", "P", "T", "M", "S", "0", "1", "9", "F", "V", "W", "a", " ", "+", "é", "ß", "€", "😀", "É", "Ω", "Ⓐ", "²", "٣", "Ｂ"];
 
 impl Check for C01Check {
     fn id(&self) -> &'static str {
@@ -428,7 +431,7 @@ impl Check for C01Check {
         true
     }
     fn rule(&self) -> String {
-        "scenario = (build mode, decoder family, seeded well-formed base traffic from the firmware models, one slice of the fault enumeration). Every scenario exists twice: index parity selects the harness binary built with overflow checks off (release) or on (relchk). Families: ADC v3 packets (unsuppressed, suppressed-kept, 16-byte form, BV channel, keep-bit) x {every truncation length, every single-bit flip, every byte x {00,01,7F,80,FF}, every aligned 16/32-bit field x boundary values in LE and BE, extensions} plus firmware-field faults with footer and baseline recomputed (requested_samples 0,1,2,n..n+3,511,65535; keep_last 0,1,33,34,..,4095 x keep/suppress bits; samples i16::MIN/MAX; sample counts 0,1,62..65); MCP chunks (same sweeps + CRC-valid header deviations); PWB v2 payloads (same sweeps, and CRC-valid delivery through the chunk path so faults reach the inner decoder); chunk lists (empty list, drop/dup/foreign/flag/size faults); TRG packets; Chronobox streams (flips, truncations, garbage); garbage datagrams 0..65 KiB into every byte decoder; all 4-character bank names over [0-9A-Z] (quick) / [0-9A-Za-z] (thorough) and all 1-4 (quick) / 1-5 (thorough) character strings over a 20-symbol alphabet with 2/3/4-byte UTF-8 characters into all 13 name/board parsers; exhaustive u8/u16/char and structured u32/[u8;6] id conversions. Oracle: the call returns (catch_unwind; worker watchdog; abort = worker death), and every accessor and Display of an accepted value returns. Non-trivial = at least one faulted input delivered; distinct = distinct event-log hashes (family, base bytes, accept counts).".into()
+        "scenario = (build mode, decoder family, seeded well-formed base traffic from the firmware models, one slice of the fault enumeration). Every scenario exists twice: index parity selects the harness binary built with overflow checks off (release) or on (relchk). Families: ADC v3 packets (unsuppressed, suppressed-kept, 16-byte form, BV channel, keep-bit) x {every truncation length, every single-bit flip, every byte x {00,01,7F,80,FF}, every aligned 16/32-bit field x boundary values in LE and BE, extensions} plus firmware-field faults with footer and baseline recomputed (requested_samples 0,1,2,n..n+3,511,65535; keep_last 0,1,33,34,..,4095 x keep/suppress bits; samples i16::MIN/MAX; sample counts 0,1,62..65); MCP chunks (same sweeps + CRC-valid header deviations); PWB v2 payloads (same sweeps, and CRC-valid delivery through the chunk path so faults reach the inner decoder); chunk lists (empty list, drop/dup/foreign/flag/size faults); TRG packets; Chronobox streams (flips, truncations, garbage); garbage datagrams 0..65 KiB into every byte decoder; all 4-character bank names over [0-9A-Z] (quick) / [0-9A-Za-z] (thorough) and all 1-4 (quick) / 1-5 (thorough) character strings over a 26-symbol alphabet with 2/3/4-byte UTF-8 characters (non-ASCII uppercase, lowercase, digits/numerics, symbols) into all 13 name/board parsers; exhaustive u8/u16/char and structured u32/[u8;6] id conversions. Oracle: the call returns (catch_unwind; worker watchdog; abort = worker death), and every accessor and Display of an accepted value returns. Non-trivial = at least one faulted input delivered; distinct = distinct event-log hashes (family, base bytes, accept counts).".into()
     }
     fn assumptions(&self) -> Vec<String> {
         vec![
@@ -455,8 +458,8 @@ impl Check for C01Check {
         let _ = seed;
         let pair_seed = simcore::run_seed(simcore::driver::verif_seed(), "C01-pair", i);
         let (n_names, n_utf8, n_ids) = match tier {
-            Tier::Quick => (36u64, 8u64, 4u64),
-            Tier::Thorough => (62 * 8, 64, 16),
+            Tier::Quick => (36u64, 13u64, 4u64),
+            Tier::Thorough => (62 * 8, 104, 16),
         };
         let (family, part, parts) = if i < n_names {
             (Family::Names, i, n_names)
@@ -776,7 +779,7 @@ impl Check for C01Check {
                 cx.stats.fault_n("name_enumerated", cx.calls / 13);
             }
             Family::Utf8 => {
-                let maxlen = if scn.parts > 8 { 5 } else { 4 };
+                let maxlen = if scn.parts > 13 { 5 } else { 4 };
                 // all strings of 1..=maxlen characters whose first character index % parts == part
                 fn rec(cx: &mut Cx, cur: &mut String, depth: usize, maxlen: usize) {
                     if depth > 0 {
@@ -797,14 +800,14 @@ impl Check for C01Check {
                     cx.name("");
                 }
                 for (k, a) in UTF8_ALPHABET.iter().enumerate() {
-                    if k as u64 % scn.parts.min(20) != scn.part % scn.parts.min(20) {
+                    if k as u64 % scn.parts.min(26) != scn.part % scn.parts.min(26) {
                         continue;
                     }
                     // with more parts than symbols, split on the second symbol as well
                     let mut cur = a.to_string();
-                    if scn.parts > 20 {
-                        let sub = scn.part / 20;
-                        let nsub = scn.parts.div_ceil(20);
+                    if scn.parts > 26 {
+                        let sub = scn.part / 26;
+                        let nsub = scn.parts.div_ceil(26);
                         cx.name(&cur.clone());
                         for (k2, b) in UTF8_ALPHABET.iter().enumerate() {
                             if k2 as u64 % nsub != sub % nsub {
